@@ -104,7 +104,7 @@ BASE = {"src/a.py": H + "a = 1\n", "src/b.c": "int b;\n", "LICENSES/MIT.txt": "m
 
 def bounds(tier, seed):
     return {"toml_keys": KEYS, "toml_shapes": list(SHAPES), "toml_pairs": tier == "thorough", "broken_toml": list(BROKEN_TOML), "broken_dep5": list(BROKEN_DEP5),
-            "broken_templates": 8, "license_sibling_states": list(SIBLING_STATES), "gitmodules_shapes": list(GITMODULES), "gitignore_shapes": list(GITIGNORE), "byte_classes": list(byte_classes()), "commands": COMMANDS, "io_fault_errnos": ["EACCES", "ENOENT", "EISDIR", "EIO"],
+            "expression_tokens": EXPR_TOKENS, "expression_max_tokens": 3 if tier == "quick" else 4, "broken_templates": 8, "license_sibling_states": list(SIBLING_STATES), "gitmodules_shapes": list(GITMODULES), "gitignore_shapes": list(GITIGNORE), "byte_classes": list(byte_classes()), "commands": COMMANDS, "io_fault_errnos": ["EACCES", "ENOENT", "EISDIR", "EIO"],
             "io_faults": "every single k-th open" + (" and every pair" if tier == "thorough" else "")}
 
 
@@ -151,6 +151,11 @@ def cases(tier, seed):
         yield {"k": "vcsmeta", "file": ".gitmodules", "name": name}
     for name in GITIGNORE:
         yield {"k": "vcsmeta", "file": ".gitignore", "name": name}
+    n = 3 if tier == "quick" else 4
+    for k in range(0, n + 1):
+        for tup in itertools.product(range(len(EXPR_TOKENS)), repeat=k):
+            for place in ("header", "toml", "dot-license"):
+                yield {"k": "expr", "toks": list(tup), "place": place}
     for state in SIBLING_STATES:
         for target in ("binary", "force-dot-license", "fallback-dot-license"):
             yield {"k": "sibling", "state": state, "target": target}
@@ -302,6 +307,32 @@ def ev_vcsmeta(c) -> R:
     r.evals = len(COMMANDS)
     r.outcome = "vcsmeta"
     r.tags.append("vcsmeta")
+    return r
+
+
+EXPR_TOKENS = ["MIT", "AND", "OR", "WITH", "(", ")", "MIT+", "Bison-exception-2.2", "+"]
+
+
+def ev_expr(c) -> R:
+    """Every token sequence as the value of a licence tag / REUSE.toml key: no parser exception may escape any command."""
+    r = R()
+    expr = " ".join(EXPR_TOKENS[i] for i in c["toks"])
+    for cmd in ("lint-json", "lint-file", "spdx", "annotate"):
+        root = fresh_dir("c16")
+        rec = dict(BASE)
+        if c["place"] == "header":
+            rec["src/b.c"] = f"/*\n * SPDX-FileCopyrightText: 2020 J\n * SPDX-License-Identifier: {expr}\n */\nint b;\n"
+        elif c["place"] == "dot-license":
+            rec["src/b.c.license"] = f"SPDX-FileCopyrightText: 2020 J\nSPDX-License-Identifier: {expr}\n"
+        else:
+            rec["REUSE.toml"] = ("version = 1\n\n[[annotations]]\npath = \"src/b.c\"\nprecedence = \"aggregate\"\nSPDX-FileCopyrightText = \"2020 J\"\n"
+                                 "SPDX-License-Identifier = %s\n" % json.dumps(expr))
+        materialise(root, rec)
+        out = run_command(cmd, root)
+        judge(r, out, cmd, f"licence expression {expr!r} in {c['place']}", f"expr|{c['place']}|{cmd}", config_path="REUSE.toml" if c["place"] == "toml" else None)
+    r.evals = 4
+    r.outcome = "expr"
+    r.tags.append("expr")
     return r
 
 
@@ -500,7 +531,7 @@ def ev_io(c) -> R:
     return r
 
 
-_EV = {"sibling": ev_sibling, "vcsmeta": ev_vcsmeta, "template": ev_template, "glob": ev_glob, "toml": ev_toml, "broken-toml": ev_broken_toml, "dep5": ev_dep5, "bytes": ev_bytes, "licenses": ev_licenses, "io": ev_io}
+_EV = {"expr": ev_expr, "sibling": ev_sibling, "vcsmeta": ev_vcsmeta, "template": ev_template, "glob": ev_glob, "toml": ev_toml, "broken-toml": ev_broken_toml, "dep5": ev_dep5, "bytes": ev_bytes, "licenses": ev_licenses, "io": ev_io}
 
 
 def evaluate(c) -> R:
@@ -522,7 +553,7 @@ def run(tier, seed):
     return finish(
         ID, "fault_enumeration", MODULE, tier, seed, st, t0,
         rule=("every REUSE.toml key x every TOML value shape (root and nested file; pairs of keys: one key row per seed in quick, all in thorough), "
-              "15 structurally broken TOML files, 18 broken or odd dep5 files + conflicts, 16 .gitmodules and 9 .gitignore shapes inside a Git repository, 8 unloadable / unrenderable templates x 3 targets, 7 odd states of FILE.license x 3 ways annotate gets to it, 11 hostile byte classes x {header, .license}, 5 LICENSES/ oddities, and an "
+              "15 structurally broken TOML files, 18 broken or odd dep5 files + conflicts, 16 .gitmodules and 9 .gitignore shapes inside a Git repository, 8 unloadable / unrenderable templates x 3 targets, every licence-expression token sequence up to the bound x {header, .license, REUSE.toml} x 4 commands, 7 odd states of FILE.license x 3 ways annotate gets to it, 11 hostile byte classes x {header, .license}, 5 LICENSES/ oddities, and an "
               "I/O fault (4 errnos) injected at the k-th open of a project file for every k (and every pair in thorough), each under 8 subcommands (4 for "
               "I/O faults); oracle: exit status in {0,1,2}, no escaping exception, configuration errors exit 2 naming the file, other files still reported; "
               "non-trivial = the malformed value / fault was actually reached"),
